@@ -1048,6 +1048,13 @@ func c03Scoring(c *Ctx, sx *symx.Ctx) {
 			if _, ok := ssau.IsFieldLoad(lk.X, dbPkg+".universalIndex", "df"); ok {
 				df = lk
 			}
+			// or a per-term idf table of the index, filled by the builder with
+			// bm25IDF(N, df[term]) for every term of df (checked below)
+			if base, ok := lk.X.(*ssa.UnOp); ok && df == nil {
+				if fa, ok := base.X.(*ssa.FieldAddr); ok && ssau.FieldOwner(fa) == dbPkg+".universalIndex" && c03IdfTable(c, ssau.FieldName(fa)) {
+					df = lk
+				}
+			}
 		})
 		good := post != nil && df != nil && f.E(post.Index) == f.E(df.Index)
 		// the term is an element of the terms parameter
@@ -1324,4 +1331,59 @@ func c03TermCap(c *Ctx, sx *symx.Ctx) {
 		}
 		r.Check(k >= 10, "O-6", "database.(*Database).SearchUniversal#default-term-cap", c.P.Pos(su.Pos()), fmt.Sprintf("default cap %d", k), fmt.Sprintf("the default term cap is %d, the property states ten content words are all searched", k))
 	}
+}
+
+// c03IdfTable: field `name` of universalIndex is a map[string]float64 whose
+// every update, in BuildUniversalIndex, is table[term] = bm25IDF(idx.N, df)
+// inside a range over idx.df with term and df that iteration's key and value.
+func c03IdfTable(c *Ctx, name string) bool {
+	build := c.P.Func("internal/database", "Database", "BuildUniversalIndex")
+	if build == nil {
+		return false
+	}
+	uix := dbPkg + ".universalIndex"
+	n := 0
+	okAll := true
+	for _, fn := range shippedFuncs(c) {
+		ssau.ForEachInstr(fn, false, func(in ssa.Instruction) {
+			mu, ok := in.(*ssa.MapUpdate)
+			if !ok {
+				return
+			}
+			if _, ok := ssau.IsFieldLoad(mu.Map, uix, name); !ok {
+				return
+			}
+			n++
+			if fn != build {
+				okAll = false
+				return
+			}
+			call, ok := mu.Value.(*ssa.Call)
+			if !ok || !strings.HasSuffix(ssau.CallName(call), ".bm25IDF") || len(call.Common().Args) != 2 {
+				okAll = false
+				return
+			}
+			if _, ok := ssau.IsFieldLoad(call.Common().Args[0], uix, "N"); !ok {
+				okAll = false
+			}
+			good := false
+			for _, l := range ssau.RangeLoops(build) {
+				if !l.IsMap || !l.InLoop(mu.Block()) {
+					continue
+				}
+				if _, ok := ssau.IsFieldLoad(l.Over, uix, "df"); !ok {
+					continue
+				}
+				k, isK := mu.Key.(*ssa.Extract)
+				v, isV := call.Common().Args[1].(*ssa.Extract)
+				if isK && isV && k.Tuple == ssa.Value(l.Next) && k.Index == 1 && v.Tuple == ssa.Value(l.Next) && v.Index == 2 {
+					good = true
+				}
+			}
+			if !good {
+				okAll = false
+			}
+		})
+	}
+	return okAll && n > 0
 }
